@@ -104,12 +104,15 @@ def parse_template(path):
             pr = BT.findall(rest)
             kv, _ = parse_kv(BT.sub('', rest).replace('=>', ''))
             meta['gsubst'].append((pr[0], pr[1], kv.get('rule', 'S')))
-        elif word in ('fn', 'type'):
+        elif word in ('fn', 'type', 'macro'):
             if cur is not None:
                 raise TemplateError('%s:%d: nested block' % (path, i))
             kv, flags = parse_kv(rest)
             cur = Block(word, kv, flags, i)
             section = None
+            if word == 'macro':
+                items.append(('block', cur, cur.tline))
+                cur = None
         elif word == 'end':
             if cur is None:
                 raise TemplateError('%s:%d: end without block' % (path, i))
@@ -564,6 +567,24 @@ def generate(repo, template, mode=None):
             em.emit_lines([(it[1], dict(kind='tmpl', tline=it[2]))])
             continue
         blk = it[1]
+        if blk.kind == 'macro':
+            src, toks = X.load(repo, blk.kv['file'])
+            hit = None
+            sidx = X.sigidx(toks)
+            for a in range(len(sidx) - 3):
+                if toks[sidx[a]].text == 'macro_rules' and toks[sidx[a + 1]].text == '!' and toks[sidx[a + 2]].text == blk.kv['name'] \
+                        and toks[sidx[a + 3]].text in '{(':
+                    hit = (sidx[a], match_close(toks, sidx[a + 3]))
+                    break
+            if hit is None:
+                raise X.LostAnchor('%s: macro_rules! %s not found' % (blk.kv['file'], blk.kv['name']))
+            mt = X.strip_comments(toks[hit[0]:hit[1] + 1])
+            txt = '\n'.join(l for l in text(mt).split('\n') if l.strip())
+            line0 = toks[hit[0]].line
+            em.emit_lines([(ln, dict(kind='src', fn='macro ' + blk.kv['name'], file=blk.kv['file'], line=line0)) for ln in txt.split('\n')])
+            types.append(dict(name='macro ' + blk.kv['name'], log=[('R10', 'local macro_rules! %s copied verbatim; expanded by rustc inside the verified function' % blk.kv['name'], line0)],
+                              hash=X.sha(toks[hit[0]:hit[1] + 1]), file=blk.kv['file'], line=line0, lines=[]))
+            continue
         if blk.kind == 'type':
             r = extract_type(repo, blk, meta)
             em.emit_lines(r['lines'])
